@@ -6,6 +6,7 @@ from sa.rules import bounds_rules as R
 from sa.rules import cpp_rules as C
 from sa.rules import ranges as RG
 from sa.rules import synth_rules as SY
+from sa.rules import maybe_rules as MB
 
 
 def main(tier):
@@ -18,7 +19,7 @@ def main(tier):
             "the generator, the function template in emboss_arithmetic.h, the *Operation functor it forwards to and "
             "the binary operator in the functor's Do() (R-CONSTFOLD for the Python half, R-OPCHAIN on the clang AST for "
             "the C++ half; MaximumOperation orientation included); $-field names agree between grammar, tokenizer, "
-            "synthetics and the C++ name table (R-DOLLAR); the field accessor returns a real view only under "
+            "synthetics and the C++ name table (R-DOLLAR); And/Or/Choice over Maybe<> have the documented three-valued truth tables on the whole finite domain, with the Maybe accessors read from emboss_maybe.h, and MaybeDo is strict (R-KLEENE); the field accessor returns a real view only under "
             "has_field ∧ offset/size known ∧ non-negative, passes (offset, size) in that order and otherwise returns "
             "the null view (R-ACCESSOR); existence/Ok checks and text I/O follow fields_in_dependency_order "
             "(R-DEPORDER) and every path of the Ok() grouping loop records the field in a group that is emitted (R-OKCOVER); the expressions synthesised for $size_in_*, $max/min_size_in_*, $next and anonymous-bits aliases "
@@ -32,12 +33,13 @@ def main(tier):
     r = cx.repo
     chk.run("R-CONSTFOLD", R.constfold, r, floor=30)
     chk.run("R-OPCHAIN", C.opchain_cpp, r, cx.cpp, floor=20)
+    chk.run("R-KLEENE", MB.kleene, cx.cpp, floor=36)
     chk.run("R-DOLLAR", B.dollar, r, floor=10)
     chk.run("R-ACCESSOR", B.accessor, r, floor=5)
-    chk.run("R-DEPORDER", B.deporder, r, floor=3)
+    chk.run("R-DEPORDER", B.deporder, r, clauses=("ok",), floor=3)
     chk.run("R-OKCOVER", B.okcover, r, floor=3)
     chk.run("R-RTSYMS", C.rtsyms, r, cx.cpp, cx.templates, floor=10)
     chk.run("R-SYNTH", SY.synth, r, floor=12)
     chk.run("R-INTERMEDIATE", RG.intermediate, r, floor=2)
-    chk.run("R-INTRANGE", RG.intrange, r, floor=190)
+    chk.run("R-INTRANGE", RG.intrange, r, parts=('backend',), floor=4)
     return chk.finish()
